@@ -54,4 +54,48 @@ THEOREM UnsignedOKForAll ==
 THEOREM PinnedRowSkipNegative ==
   CroppedNew(1, 1, <<0, 0, 2, 0>>, FALSE).rowSkip = -1
   BY DEF CroppedNew, Inter, Empty, Has, Max, Min
+
+(* The inductive invariant of the Cropped iterator (contiguous.rs:93-118) for EVERY crop size cw x ch >= 1 x 1, *)
+(* initial skip I and row skip s: the colour of crop row r, column c is the item I + r (cw + s) + c of the       *)
+(* underlying stream - with I = cy W + cx and s = W - cw that is the stream position of point (cx + c, cy + r)  *)
+(* of the W wide area - and the cropped stream ends after cw ch colours.                                          *)
+(*   state: x, y (counters of the struct), idx = position of the underlying stream;  ghost: none needed, the     *)
+(*   counters are the column (x = colours delivered in the current row) and the row.                             *)
+CInv(cw, ch, I, s, x, y, idx) ==
+  /\ x \in 0..cw /\ y \in 0..(ch - 1)
+  /\ idx = I + y * (cw + s) + x
+
+THEOREM CroppedInit ==
+  ASSUME NEW cw \in Nat, NEW ch \in Nat, cw >= 1, ch >= 1, NEW I \in Nat, NEW s \in Nat
+  PROVE  CInv(cw, ch, I, s, 0, 0, I)
+  BY DEF CInv
+
+\* next() with x < width: the underlying next()
+THEOREM CroppedStepInRow ==
+  ASSUME NEW cw \in Nat, NEW ch \in Nat, cw >= 1, ch >= 1, NEW I \in Nat, NEW s \in Nat,
+         NEW x \in Int, NEW y \in Int, NEW idx \in Int, CInv(cw, ch, I, s, x, y, idx), x < cw
+  PROVE  /\ idx = I + y * (cw + s) + x                  \* colour (row y, column x) comes from this position
+         /\ CInv(cw, ch, I, s, x + 1, y, idx + 1)
+  BY DEF CInv
+
+\* next() with x = width and another row: the underlying nth(row_skip)
+THEOREM CroppedStepNextRow ==
+  ASSUME NEW cw \in Nat, NEW ch \in Nat, cw >= 1, ch >= 1, NEW I \in Nat, NEW s \in Nat,
+         NEW x \in Int, NEW y \in Int, NEW idx \in Int, CInv(cw, ch, I, s, x, y, idx), x = cw, y + 1 < ch
+  PROVE  /\ idx + s = I + (y + 1) * (cw + s) + 0        \* colour (row y + 1, column 0) comes from this position
+         /\ CInv(cw, ch, I, s, 1, y + 1, idx + s + 1)
+<1>1. (y + 1) * (cw + s) = y * (cw + s) + cw + s
+  OBVIOUS
+<1> QED BY <1>1 DEF CInv
+
+\* next() with x = width in the last row returns None: cw ch colours have been delivered
+THEOREM CroppedEnds ==
+  ASSUME NEW cw \in Nat, NEW ch \in Nat, cw >= 1, ch >= 1, NEW I \in Nat, NEW s \in Nat,
+         NEW x \in Int, NEW y \in Int, NEW idx \in Int, CInv(cw, ch, I, s, x, y, idx), x = cw, y + 1 >= ch
+  PROVE  y * cw + x = cw * ch
+<1>1. y = ch - 1
+  BY DEF CInv
+<1>2. (ch - 1) * cw + cw = cw * ch
+  OBVIOUS
+<1> QED BY <1>1, <1>2
 =============================================================================
